@@ -191,11 +191,16 @@ class Collector:
         self.fallbacks: set[str] = set()
         self.entered: set[str] = set()
 
-    def run(self, tree: ANode, prefix: Any, internal: Any, importer: Any) -> list[Run]:
+    def run(self, tree: ANode, prefix: Any, internal: Any, importer: Any, warm: tuple | None = None) -> list[Run]:
+        """`warm` = (tree, prefix, internal, importer) of a call of convert() made first on the same converter object (its result is
+        thrown away): whatever the first call leaves behind - on the object, its class, the module - must not leak into the second."""
         repo = self.repo
 
         def entry(it):
             conv = it.instantiate(self.conv_cls, [], {}, None, None)
+            if warm is not None:
+                w = it.instantiate(self.named, [warm[0], warm[3]], {}, None, None)
+                it.call(it.getattr_value(conv, "convert"), [[w], warm[1], warm[2]], {})
             nm = it.instantiate(self.named, [tree, importer], {}, None, None)
             res = it.call(it.getattr_value(conv, "convert"), [[nm], prefix, internal], {})
             kind, items = it.iterate(res, self.entry.node, None) if res is not None else ("concrete", [])
@@ -392,8 +397,10 @@ def run_conv_samples(repo: Repo, gram: dict) -> tuple[str, str]:
             continue
         leaf = import_leaf(gram, cls, names, module=module, level=level, symbolic=False)
         tree = node(gram, "Module", body=[filler(gram, 1), node(gram, "If", test=node(gram, "Name", id="x"), body=[filler(gram, 0)], orelse=[leaf])])
+        # an earlier call of the same converter with another prefix and another set of internal modules must leave nothing behind
+        decoy = node(gram, "Module", body=[import_leaf(gram, "ImportFrom" if "ImportFrom" in gram else cls, ["pkg"], module="root", level=0, symbolic=False)])
         try:
-            runs = col.run(tree, "zz", set(CONV_INTERNAL), CONV_IMPORTER)
+            runs = col.run(tree, "zz", set(CONV_INTERNAL), CONV_IMPORTER, warm=(decoy, "decoy", {"decoy", "decoy.root"}, "decoy.first"))
         except Unsupported as u:
             return "undecided", u.msg
         if len(runs) != 1 or runs[0].outcome != "return" or col.fallbacks:
@@ -403,7 +410,7 @@ def run_conv_samples(repo: Repo, gram: dict) -> tuple[str, str]:
             return "undecided", "records with symbolic names on constant input"
         form = f"import {', '.join(names)}" if cls == "Import" else f"from {'.' * level}{module or ''} import {', '.join(names)}"
         if sorted(got) != sorted((CONV_IMPORTER, w) for w in want):
-            return "bad", f"`{form}` in module `{CONV_IMPORTER}` (internal modules {sorted(CONV_INTERNAL)}) yields the imports {sorted(b for _a, b in got)} from {sorted({a for a, _b in got})} - the property demands {sorted(want)} from ['{CONV_IMPORTER}']"
+            return "bad", f"`{form}` in module `{CONV_IMPORTER}` (internal modules {sorted(CONV_INTERNAL)}; the converter had converted one other file with other internal modules before) yields the imports {sorted(b for _a, b in got)} from {sorted({a for a, _b in got})} - the property demands {sorted(want)} from ['{CONV_IMPORTER}']"
     return "ok", ""
 
 
